@@ -142,9 +142,13 @@ theorem print_stable_value (fl : Flags) (hnl : fl.noLocation = true) (c : Cfg) (
 
 /-! ## documents -/
 
-/-- `print_total`: the model printer is a total function on EVERY tree (no error branch exists in `Print.lean`; that
-    the real printer raises nothing on parser-produced trees is the correspondence + the direct oracle), and its output
-    always ends with the final newline of `print_document`. -/
+/-- `print_total`: the output of the model printer always ends with the final newline of `print_document`.
+    NOTE (audit F8): the proof is `⟨_, rfl⟩` and carries no more content than that. "Printing never raises" is NOT a theorem
+    of this development: the model printer (`Print.lean`) is a total Lean function WITHOUT an error branch, so totality holds
+    by construction of the model and says nothing about the implementation; likewise "printing is deterministic" (a Lean
+    function). That the real printer raises nothing and returns the same text on parser-produced trees is tied ONLY by the
+    correspondence and the direct oracle (outcome `internal:<Class>`, repeated calls), with the known exception R7
+    (RecursionError on trees nested a few hundred levels deep; `print_deep_list` shows what the model prints there). -/
 theorem print_total (c : Cfg) (d : Document) : ∃ s, printDocument c d = s ++ [10] := ⟨_, rfl⟩
 
 /-- an indentation setting of the statement: spaces and tabs only -/
